@@ -58,7 +58,7 @@ def dense_query(kind, n, rng):
     if kind == 'tall':
         return rng.randn(n + 2, n)
     if kind == 'scaled':
-        return 3.0 * np.eye(n)
+        return np.diag(np.arange(1.0, n + 1.0))
     raise ValueError(kind)
 
 
